@@ -162,7 +162,9 @@ func oracleLayerSpec(c *FsCase, before, after *Outcome, out string) []Problem {
 						hasHeader = true
 					}
 				}
-				if !hasHeader && kindAfter[abs(anc)] == "" {
+				// the marker's walk removes a child of `d` that is not remembered as unpacked, whatever
+				// later entries re-create there
+				if !hasHeader {
 					sig = "D7"
 				}
 			}
